@@ -14,7 +14,7 @@ def impl_bin():
     """the implementation binary; VERIF_MACROAPI_BIN overrides it (used to run the check against a scratch build)"""
     return os.environ.get("VERIF_MACROAPI_BIN") or vlib.rust_bin("macroapi")
 
-TRANSLATORS = ["error_codes", "macroapi"]
+TRANSLATORS = ["error_codes", "macroapi", "error_consts"]     # error_consts: Model/MacroApi.v err_invalid_params / err_not_found
 MODELS = ["macroapi"]
 BINS = {"release": ["macroapi"]}
 RULE = ("case = one call on one of the compiled APIs (5 traits, 29 methods/subscriptions: 0..5 parameters, Option tails of 1, 2 and 3 "
